@@ -126,6 +126,7 @@ func C17(p *core.Program, r *core.Report) {
 	checkWamCodes(p, r)
 	checkInvalidRejected(p, r)
 	checkTextNumberWidth(p, r)
+	checkEndpointDecoderValidates(p, r)
 	checkBundleIDLen(p, r)
 }
 
@@ -892,4 +893,59 @@ func derefNamed(t types.Type) types.Type {
 		return pt.Elem()
 	}
 	return t
+}
+
+// checkEndpointDecoderValidates: the CBOR decoder of an endpoint ID is used for
+// every endpoint nested anywhere (primary block, previous node, PRoPHET /
+// DTLSR metadata, discovery announcements, status reports). The encoder
+// refuses invalid endpoints, so the decoder must refuse them as well —
+// otherwise a value is accepted that cannot be encoded again — and the CBOR
+// form of dtn:none is the integer 0 and nothing else.
+func checkEndpointDecoderValidates(p *core.Program, r *core.Report) {
+	un := p.Func(bp7, "EndpointID", "UnmarshalCbor")
+	nOK, bad := 0, ""
+	for _, rv := range core.ReturnValues(un, 0) {
+		if c, isC := rv.V.(*ssa.Const); isC && c.Value == nil {
+			bad = "a nil return at " + p.Pos(rv.At.Pos()) + " does not pass EndpointID.CheckValid"
+			continue
+		}
+		if call, isCall := rv.V.(*ssa.Call); isCall && core.NameIs(core.CalleeName(call), bp7+".EndpointID.CheckValid") {
+			nOK++
+		}
+	}
+	r.Check(nOK > 0 && bad == "", "endpoint-decoder/"+fname(un)+"/validates", "EndpointID.UnmarshalCbor succeeds only with the verdict of EndpointID.CheckValid (the encoder refuses what CheckValid refuses: an accepted endpoint must be encodable again)", p.Pos(un.Pos()), "", "the decoder can succeed without validation: "+bad)
+	// the encoder side of the agreement
+	mar := p.Func(bp7, "EndpointID", "MarshalCbor")
+	r.Check(len(core.CallsTo(mar, bp7+".EndpointID.CheckValid")) > 0, "endpoint-decoder/"+fname(mar)+"/encoder-validates", "EndpointID.MarshalCbor validates before writing (the premise of the decoder rule)", p.Pos(mar.Pos()), "", "MarshalCbor no longer calls CheckValid")
+
+	dn := p.Func(bp7, "DtnEndpoint", "UnmarshalCbor")
+	nNone := 0
+	core.EachInstr(dn, func(in ssa.Instruction) {
+		st, ok := in.(*ssa.Store)
+		if !ok || !core.IsField(st.Addr, bp7, "DtnEndpoint", "IsDtnNone") || !core.IsBoolConst(st.Val, true) {
+			return
+		}
+		nNone++
+		okZero := false
+		for _, cd := range core.DominatingConds(st.Block()) {
+			b, ok := cd.V.(*ssa.BinOp)
+			if !ok {
+				continue
+			}
+			ex, isEx := b.X.(*ssa.Extract)
+			k, isC := core.ConstInt(b.Y)
+			if !isEx || !isC || k != 0 || ex.Index != 1 {
+				continue
+			}
+			if call, ok := ex.Tuple.(*ssa.Call); !ok || !core.NameIs(core.CalleeName(call), cbor+".ReadMajors") {
+				continue
+			}
+			if (b.Op == token.EQL && cd.True) || (b.Op == token.NEQ && !cd.True) {
+				okZero = true
+			}
+		}
+		r.Check(okZero, "endpoint-decoder/"+fname(dn)+"/none-is-zero", "the CBOR form of dtn:none is the unsigned integer 0: the decoder sets IsDtnNone only when the value read is 0 (any other integer is not an endpoint; it would re-encode as 0)", p.Pos(st.Pos()), "", "IsDtnNone is set for every unsigned integer")
+	})
+	r.Count("IsDtnNone=true stores in DtnEndpoint.UnmarshalCbor", nNone)
+	r.Min("IsDtnNone=true stores in DtnEndpoint.UnmarshalCbor", 1)
 }
